@@ -413,7 +413,8 @@ class _Shape:
         if self.region_type in ['polygon', 'line']:
             # have to special-case polygon in the phys coord case
             # b/c can't typecheck when iterating as in sky coord case
-            coords = [PixCoord(self.coord[0::2], self.coord[1::2])]
+            coords = [PixCoord([_.value for _ in self.coord[0::2]],
+                               [_.value for _ in self.coord[1::2]])]
         else:
             temp = [_.value for _ in self.coord]
             coord = PixCoord(temp[0], temp[1])
